@@ -16,6 +16,7 @@ import (
 	"github.com/jirenius/go-res/store/badgerstore"
 	"github.com/jirenius/go-res/store/mockstore"
 	"github.com/jirenius/keylock"
+	"github.com/jirenius/taskqueue"
 
 	"verif/sim/model"
 	"verif/sim/sched"
@@ -261,8 +262,16 @@ func (StoreCohScenario) Execute(sim *sched.Sim, ci interface{}, prop string, rac
 	}
 	res.VerifHook = yield
 	badgerstore.VerifHook = yield
+	badger.VerifHook = yield
 	keylock.Hook = yield
-	defer func() { res.VerifHook = nil; badgerstore.VerifHook = nil; keylock.Hook = nil }()
+	taskqueue.Hook = yield
+	defer func() {
+		res.VerifHook = nil
+		badgerstore.VerifHook = nil
+		badger.VerifHook = nil
+		keylock.Hook = nil
+		taskqueue.Hook = nil
+	}()
 
 	m := newMiniSvc(sim, h, "test", c.Workers)
 	m.conn.YieldFn = yield
